@@ -48,8 +48,8 @@ CLAIMED = {
          "modelled over exact rationals; for a map written in ANY entry order with pairwise different, strictly increasing entries "
          "map_backward(map_forward v) == v and map_forward(map_backward d) == d for ALL v, d; for strictly decreasing maps both hold inside "
          "the node range and a machine-checked counterexample shows the range cannot be dropped (slope +1 extrapolation); conflicting inputs "
-         "are refused. UFO 1/2 -> 3 kerning conversion (as repaired by the fix: commit for F21): the whole function is modelled; every renamed "
-         "group gets its own new name, none an existing group name, on both sides together. Correspondence on adversarial name sequences, on "
+         "are refused. UFO 1/2 -> 3 kerning conversion (as repaired by the fix: commits for F21 and F22): the whole function is modelled; every renamed "
+         "group gets its own new name, none an existing group name nor an existing kerning entry, on both sides together, and every kerning value is found under the renamed names (convert_keeps_every_value; F22 was found because the proof needed a side condition the code did not meet). Correspondence on adversarial name sequences, on "
          "generated kerning/groups dictionaries and on random maps (unsorted, flat, non-monotone, duplicate, "
          "conflicting); designspace/plist/GLIF/UFO write-read equality are implementation sweeps (testing). "
          "F2 (misc/filenames raw-string table) repaired by a fix: commit.",
